@@ -338,7 +338,7 @@ static void c09_build_main(void)
 #endif
 	VERIF_ASSUME(s <= KS && r <= KR);
 	/* fewer than 2^64 - 16 submissions in the life of a pool */
-	VERIF_ASSUME(ndt <= nt && nt < (size_t)-16 && s <= ndt);
+	VERIF_ASSUME(ndt <= nt && nt < (SIZE_MAX - 16) && s <= ndt);
 
 	g_wt = verif_nd_size("witness_ticket");
 	g_wd = c09_nd_ptr("witness_data");
@@ -407,7 +407,7 @@ static void c09_build_shared(void)
 	} else {
 		nt = verif_nd_size("next_ticket");
 		ndt = verif_nd_size("next_dequeue_ticket");
-		VERIF_ASSUME(ndt <= nt && nt < (size_t)-16);
+		VERIF_ASSUME(ndt <= nt && nt < (SIZE_MAX - 16));
 		pool->next_ticket = nt;
 		pool->next_dequeue_ticket = ndt;
 	}
